@@ -1,6 +1,6 @@
 """check configuration for C12 (loaded by lib/zvprops.py)"""
 
-PROP = {'gen_tables': ['BwsFacts'], 'race': True,
+PROP = {'gen_tables': ['BwsFacts', 'TransLocked'], 'race': True,
  'rule': 'ops: (1) seq, exhaustive — sizes 1..3 × every history of length ≤ 4 (quick) / sizes 1..3 × length ≤ 5 and sizes 5, 8 × length ≤ 4 (thorough) over {empty write, 1 byte, '
          '2 bytes, exactly the size, size+1, Sync, tick, Stop} on a reliable sink; (2) seq, random — sizes 1…4096 and the default, write lengths '
          '0 / exactly the free space / free±1 / the size / larger than the buffer, scripted failing sinks (short counts with and without error, '
